@@ -31,6 +31,11 @@ type node struct {
 	kind string // leaf kind for descriptors/signatures, e.g. "li2", "td@tfoot", "li1-p"
 	// textAfter: the leaf's own text follows its block children in the source (document order of its token)
 	textAfter bool
+	// floating: the leaf sits in a neutral wrapper inside a list item AFTER a directly nested list of that item.
+	// The implementation may fold the wrapper's text into the item's own text (returned before the nested items) or
+	// emit it as nested items (after them); the statement orders content elements, and both readings keep the
+	// element order item < its contents, so the order clause does not place this leaf. "Exactly once" still applies.
+	floating bool
 }
 
 func el(tag string, kids ...*node) *node {
@@ -181,7 +186,7 @@ func prune(n *node, skip func(*node) bool) *node {
 	if n.tag != "" && skip(n) {
 		return nil
 	}
-	c := &node{tag: n.tag, attrs: n.attrs, src: n.src, srcX: n.srcX, dec: n.dec, tok: n.tok, kind: n.kind, textAfter: n.textAfter}
+	c := &node{tag: n.tag, attrs: n.attrs, src: n.src, srcX: n.srcX, dec: n.dec, tok: n.tok, kind: n.kind, textAfter: n.textAfter, floating: n.floating}
 	for _, k := range n.kids {
 		c.add(prune(k, skip))
 	}
